@@ -1043,6 +1043,11 @@ class Terms:
         plain = ("call", qual, args, kws)
         if os.environ.get("MOKAPOT_NO_CALLCANON"):
             return plain
+        if qual == "builtins.dict" and not args and kws and not any(
+                k == "**" for k, _v in kws):
+            # dict(a=x, b=y) is the display {"a": x, "b": y}
+            return ("dict", tuple(("const", k) for k, _v in kws),
+                    tuple(v for _k, v in kws))
         if qual in EXTERNAL_SIGS:
             return self._canon_external(qual, args, kws)
         f = self.prog.funcs.get(qual)
@@ -1246,7 +1251,7 @@ class Terms:
                 if ft[0] in ("name", "func"):
                     return self._canon_call(ft[1], args, kws)
                 if ft[0] == "free":
-                    return ("call", "builtins." + fn.id, args, kws)
+                    return self._canon_call("builtins." + fn.id, args, kws)
                 return ("callv", ft, args, kws)
             return ("callv", self._t(fn, d1, cenv), args, kws)
         if isinstance(e, ast.Subscript):
